@@ -69,7 +69,7 @@ Definition parse_enr (pri : bytes) : option enr_info :=
       match atoi_opt p0 with
       | Some tx =>
           Some (mk_enr tx p1 p2 p3 p4
-                  (if is_business p7 then p5 ++ p6 else p6 ++ [sp] ++ p5) p7)
+                  (if is_business p7 then p5 ++ p6 else p6 ++ sp :: p5) p7)
       | None => None
       end
   | _ => None
